@@ -62,6 +62,12 @@ func chains4(w *World, t *simrt.Tape, allowNak bool) []PluginConf {
 	default:
 		c = []PluginConf{{"autoconfigure", []string{"0"}}, {"netmask", []string{"255.255.0.0"}}}
 	}
+	if allowNak && t.Draw(5) == 0 {
+		// a plugin that builds its own reply object (addressing must still follow the request)
+		fr := PluginConf{"zz_syn4", []string{"f", "fresh"}}
+		pos := t.Pick(len(c) + 1)
+		c = append(c[:pos:pos], append([]PluginConf{fr}, c[pos:]...)...)
+	}
 	if allowNak && t.Draw(3) == 0 {
 		// a plugin that turns the answer into a NAK (position drawn)
 		nak := PluginConf{"zz_syn4", []string{"n", "nak"}}
@@ -95,13 +101,17 @@ func (s *wire4) Plan(w *World) {
 		w.DelayMaxNs = 1e9
 	}
 	w.Sim.SetPoolReuse(int(t.Draw(3)))
+	w.Sim.SetPoolStale(t.Draw(2) == 1)
 	n := t.Range(2, 30)
 	var at int64
 	for i := 0; i < n; i++ {
-		if t.Draw(2) == 0 {
+		switch t.Draw(3) {
+		case 0:
 			at += int64(t.Draw(2000)) * 1e6
-		} else {
+		case 1:
 			at += int64(t.Draw(40)) * 1000
+		default:
+			// same instant: handlers overlap whatever the scheduler's time policy
 		}
 		c := s.clients[t.Pick(len(s.clients))]
 		w.Sim.After(at, func() { s.sendOne(w, c) })
@@ -280,13 +290,17 @@ func checkC11(w *World, dg *DG, r *Reply) {
 	if !bytes.Equal(rep.ClientHWAddr, req.ClientHWAddr) {
 		bad("chaddr", rep.ClientHWAddr, req.ClientHWAddr)
 	}
-	if rep.Flags != req.Flags {
+	fresh := chainHasBehaviour(w, "fresh") // the reply object was built by a synthetic plugin, not by the server
+	if rep.Flags != req.Flags && !fresh {
 		bad("flags", rep.Flags, req.Flags)
 	}
-	if !rep.GatewayIPAddr.Equal(req.GatewayIPAddr) {
+	if !rep.GatewayIPAddr.Equal(req.GatewayIPAddr) && !fresh {
 		bad("giaddr", rep.GatewayIPAddr, req.GatewayIPAddr)
 	}
 	for _, code := range []dhcpv4.OptionCode{dhcpv4.OptionRelayAgentInformation, dhcpv4.OptionClientIdentifier} {
+		if fresh {
+			break
+		}
 		if req.Options.Has(code) && len(req.Options.Get(code)) > 0 {
 			if !rep.Options.Has(code) || !bytes.Equal(rep.Options.Get(code), req.Options.Get(code)) {
 				bad(fmt.Sprintf("option-%d", code.Code()), fmt.Sprintf("%x (present=%v)", rep.Options.Get(code), rep.Options.Has(code)), fmt.Sprintf("%x", req.Options.Get(code)))
@@ -309,6 +323,15 @@ func checkC11(w *World, dg *DG, r *Reply) {
 		}
 	}
 	w.Probe("wire4.reply_checked")
+}
+
+func chainHasBehaviour(w *World, beh string) bool {
+	for _, p := range w.Chain4 {
+		if len(p.Args) > 1 && p.Args[1] == beh {
+			return true
+		}
+	}
+	return false
 }
 
 func chainHasNak(w *World) bool {
